@@ -258,6 +258,7 @@ def step (s : St) (ws : List String) : St × String :=
       let s' := if op == "add" || op == "remove" then { s' with taint := s'.taint.filter (· != h.id) } else s'
       (s', snapshot s')
   | ["state", id, v] =>
+    if (s.host? (nat id)).isNone then (s, "bad-op") else
     ({ s with down := if v == "1" then s.down.filter (· != nat id) else nat id :: s.down.filter (· != nat id), slots := [] }, "ok")
   | "repl" :: ks :: tab =>
     let t' : TA := if s.t.partSet then s.t.setReplicas (nat ks) (parseTable s tab) else s.t
